@@ -158,7 +158,7 @@ async def _writer_do(env, state, op) -> list[bytes]:
 
 async def _one_program(ctx, kind: str, seed: int, steps: int, weights: dict,
                        first: list | None = None, final=None, observer: bool = False,
-                       interfere: float = 0.0, free: bool = False):
+                       interfere: float = 0.0, free: bool = False, colon: str | None = None):
     """Run one program; returns (env, init, steps, monitor findings).
     `free`: no discipline after interference (any command, sequence numbers and '*'
     included) and no comparison with the Python reference, which cannot follow what a
@@ -170,7 +170,7 @@ async def _one_program(ctx, kind: str, seed: int, steps: int, weights: dict,
     import asyncio
     import random
     rng = random.Random(f'{ctx.prop}-{ctx.seed}-{kind}-{seed}')
-    env = await R.Env(kind).start(rng, prefill=rng.choice([0, 3, 6]) if kind == 'maildir' else 0)
+    env = await R.Env(kind, colon).start(rng, prefill=rng.choice([0, 3, 6]) if kind == 'maildir' else 0)
     try:
         state = {'ref': None, 'cid': 0, 'problems': [], 'wconn': None, 'wlog': []}
 
@@ -439,7 +439,7 @@ def _drive(j: int):
     try:
         env, init, sts, problems = run_async(_one_program(
             t['ctx'], kind, i, steps, t['weights'], f, t['final'], obs,
-            t['interfere'], t['free']), 600.0)
+            t['interfere'], t['free'], t['colon']), 600.0)
     except (TimeoutError, RuntimeError) as exc:
         return {'kind': kind, 'i': i, 'exc': repr(exc), 'stuck': isinstance(exc, TimeoutError),
                 'first': repr(f)[:2000]}
@@ -467,14 +467,15 @@ def _results(n: int):
 
 
 def run_programs(ctx, label: str, plan: list, weights: dict, first=None, final=None,
-                 observer=None, on_program=None, interfere: float = 0.0, free: bool = False) -> None:
+                 observer=None, on_program=None, interfere: float = 0.0, free: bool = False,
+                 colon: str | None = None) -> None:
     """plan: [(kind, n_programs, steps)]"""
     cases, keep = [], []
     hist: dict = {}
     stuck = 0
     _TASK.clear()
     _TASK.update(ctx=ctx, weights=weights, first=first, final=final, observer=observer,
-                 interfere=interfere, free=free,
+                 interfere=interfere, free=free, colon=colon,
                  items=[(kind, i, steps) for kind, n, steps in plan for i in range(n)])
     for r in _results(len(_TASK['items'])):
         kind, i = r['kind'], r['i']
@@ -795,6 +796,14 @@ def run(ctx) -> None:
     run_programs(ctx, 'interference_free', [('dict', ni, 16), ('maildir', ni, 16)], R.C10_WEIGHTS,
                  interfere=0.35, free=True)
     _lap('interference_free')
+    # maildir with a non-default info delimiter (--colon '!'): every folder must use it
+    csc = [[_app(0, [b'\\Deleted']), _app(0, [b'\\Seen', b'\\Flagged']), _sel(0), _cm('move', [1], 1),
+            _cm('copy', [1], 1), _sel(1, True), _fetch(ALL, 1), _sel(1), _store(ALL, 'add', [b'\\Answered']),
+            _cm('move', ALL, 0), _sel(0, True), _fetch(ALL, 1), {'k': 'check'}, _fetch(ALL, 1)]]
+    run_programs(ctx, 'colon_scenario', [('maildir', len(csc), 0)], R.C10_WEIGHTS,
+                 first=lambda i: csc[i], colon='!')
+    run_programs(ctx, 'colon_programs', [('maildir', ctx.scale(12, 80), 16)], R.C10_WEIGHTS, colon='!')
+    _lap('colon')
 
 
 def replay(ctx, obj) -> int:
